@@ -697,7 +697,16 @@ func classifyMapRange(p *packages.Package, fd *ast.FuncDecl, rs *ast.RangeStmt) 
 		// (3) unique-match scan: single `if` (no else) whose body only assigns locals
 		if is, ok := rs.Body.List[0].(*ast.IfStmt); ok && is.Else == nil && is.Init == nil {
 			onlyAssign := true
-			for _, s := range is.Body.List {
+			for i, s := range is.Body.List {
+				// the match is unique, so leaving the loop at the match (return / break) changes nothing
+				if i == len(is.Body.List)-1 {
+					if _, isRet := s.(*ast.ReturnStmt); isRet {
+						continue
+					}
+					if br, isBr := s.(*ast.BranchStmt); isBr && br.Tok == token.BREAK && br.Label == nil {
+						continue
+					}
+				}
 				as, ok := s.(*ast.AssignStmt)
 				if !ok {
 					onlyAssign = false
